@@ -43,23 +43,65 @@ def run(chk, F, G_):
                   "of every scope are visited; dynamic templates, priorities and is_instantiated are honoured")
     F.record(FC)
     vg = F.fn(FC + "::visitGuard")
-    tested, groups = case_labels_with(vg, lambda b: any(c.get("name") == "uses_fp" for c in calls(b)))
+
+    def child_idx(e):
+        while isinstance(e, dict) and (e.get("k") == "cast" or (e.get("k") == "construct" and len(e.get("args", [])) == 1)):
+            e = e["e"] if e.get("k") == "cast" else e["args"][0]
+        if isinstance(e, dict) and e.get("k") == "call" and e.get("name") == "get" and e.get("args"):
+            a = e["args"][0]
+            if a.get("k") == "int":
+                return a["v"]
+            return "loop"
+        return None
+
+    def fp_tested_children(body, depth=0):
+        """Child indices of the guard whose floating-point use is tested, directly or through a helper."""
+        out = set()
+        for c in calls(body):
+            if c.get("name") == "uses_fp" and c.get("recv") is not None:
+                i = child_idx(c["recv"])
+                if i == "loop":
+                    out |= {0, 1}
+                elif i is not None:
+                    out.add(i)
+            elif depth < 3 and c.get("fn") and (c.get("cls") == FC or c.get("ck") == "free"):
+                tgt = F.fns(c["fn"])
+                tgt = [t for t in tgt if len(t["params"]) == len(c.get("args", []))]
+                if not tgt:
+                    continue
+                for k, a in enumerate(c.get("args", [])):
+                    i = child_idx(a)
+                    if i is None:
+                        continue
+                    pname = tgt[0]["params"][k]["name"]
+                    for cc in calls(tgt[0]["body"], "uses_fp"):
+                        r = cc.get("recv") or {}
+                        if r.get("k") == "ref" and r.get("name") == pname:
+                            out |= ({0, 1} if i == "loop" else {i})
+        return out
+
+    tested = set()
+    both = True
+    groups = []
+    try:
+        groups = switch_cases(vg)
+    except AnalysisBroken:
+        groups = []
+    for labels, stmts in groups:
+        t = fp_tested_children({"k": "block", "s": stmts})
+        if t:
+            tested.update(labels)
+            if set(labels) & set(ATOMS) and t != {0, 1}:
+                both = False
     for k in ATOMS:
         chk.ob(rid, "guard-atom|%s" % k, k in tested,
                "FeatureChecker::visitGuard does not test %s comparisons for floating-point operands: a guard like "
                "`x %s 1.5` leaves symbolic analysis reported as supported" %
                (k, {"LT": "<", "LE": "<=", "GE": ">=", "GT": ">", "EQ": "=="}[k]),
                "%s:%s" % (vg["file"], vg["line"]))
-    # both operands
-    both = False
-    for labels, stmts in groups:
-        if set(labels) & set(ATOMS):
-            b = {"k": "block", "s": stmts}
-            both = any(n.get("k") in ("for", "rangefor") and any(c.get("name") == "uses_fp" for c in calls(n.get("body")))
-                       for n in walk(b)) or \
-                sum(1 for c in calls(b) if c.get("name") == "uses_fp") >= 2
-    chk.ob(rid, "guard-atom|both-operands", both,
-           "visitGuard does not test both operands of a comparison", "%s:%s" % (vg["file"], vg["line"]))
+    chk.ob(rid, "guard-atom|both-operands", both and bool(tested),
+           "visitGuard tests only one operand of a comparison for floating point: `1.5 < x` (bound on the left) leaves "
+           "symbolic analysis reported as supported", "%s:%s" % (vg["file"], vg["line"]))
     descended, _ = case_labels_with(vg, lambda b: reaches_children(vg, b))
     for k in CONNECTIVES:
         chk.ob(rid, "guard-connective|%s" % k, k in descended,
